@@ -21,6 +21,22 @@
    follow-up is a well-served request for the OTHER point and shows that the busy
    lock and the protocol state were given back.
 
+   The client's CONFIGURATION is a dimension of the case: which of the optional
+   callbacks BlockFunc ("bf"), BlockRawFunc ("raw") and BatchDoneFunc ("bdf") are
+   set.  The callbacks only RECEIVE: the protocol work of a handler - and above
+   all giving the busy lock back at BatchDone / NoBlocks / failure - does not
+   depend on them.  comp[k] counts the BatchDone messages handled for call k
+   whatever is configured; bd[k] counts the BatchDoneFunc invocations and is
+   comp[k] if a BatchDoneFunc is set and 0 otherwise (BatchDoneFuncIffConfigured);
+   the lock is free as soon as comp[k] = 1 (ReleasedAtBatchDone), so that the
+   follow-up request of every two-request history is sent (EveryRequestSent).
+   deliv[k] is what "the block callback" received: BlockFunc or BlockRawFunc,
+   with both set the property does not say which one (the driver accepts either,
+   each must see the served order).  Without any block callback the property is
+   silent about a range batch that carries blocks: those cases are not in the
+   case space (range requests answered NoBlocks / StartBatch.BatchDone and
+   GetBlock requests are).
+
    The specification is written for the REPAIRED design (DESIGN 7):
      HashCheck = TRUE   GetBlock compares the block's hash with the point's hash;
      Collect   = TRUE   GetBlock keeps receiving blocks until BatchDone and then
@@ -34,6 +50,7 @@ CONSTANTS Points,      \* abstract block identities (hash classes), e.g. {1, 2}
           MaxBlocks,   \* longest batch
           HashCheck, Collect,
           FollowUps,   \* subset of {"none", "block", "range"}
+          Configs,     \* subset of AllConfigs: the callback configurations of the client
           Emit         \* write cases.ndjson / outcomes.ndjson
 
 None == [t |-> "none", b |-> 0]
@@ -43,9 +60,24 @@ Blk(b) == [t |-> "B", b |-> b]
 Batches == UNION {[1..k -> Points] : k \in 0..MaxBlocks}
 Shapes == {[nob |-> TRUE, blocks |-> <<>>]} \cup {[nob |-> FALSE, blocks |-> s] : s \in Batches}
 
+\* callback configurations: which of BlockFunc / BlockRawFunc / BatchDoneFunc are set
+AllConfigs == {"none", "bf", "raw", "bf+raw", "bdf", "bf+bdf", "raw+bdf", "bf+raw+bdf"}
+ASSUME Configs \subseteq AllConfigs /\ Configs # {}
+HasBF(k) == k \in {"bf", "bf+raw", "bf+bdf", "bf+raw+bdf"}
+HasRaw(k) == k \in {"raw", "bf+raw", "raw+bdf", "bf+raw+bdf"}
+HasBDF(k) == k \in {"bdf", "bf+bdf", "raw+bdf", "bf+raw+bdf"}
+HasBlockCb(k) == HasBF(k) \/ HasRaw(k)
+
+\* some range request of the case is served at least one block
+RangeGetsBlock(x) ==
+    \/ x.mode = "range" /\ ~x.shape.nob /\ x.shape.blocks # <<>>
+    \/ x.follow = "range"
+
 CaseSpace ==
-    {x \in [mode : {"block", "range"}, p : Points, shape : Shapes, close : BOOLEAN, follow : FollowUps] :
-        x.close => x.follow = "none"}
+    {x \in [mode : {"block", "range"}, p : Points, shape : Shapes, close : BOOLEAN, follow : FollowUps,
+            cfg : Configs] :
+        /\ x.close => x.follow = "none"
+        /\ RangeGetsBlock(x) => HasBlockCb(x.cfg)}
 
 Other(p) == CHOOSE q \in Points : q # p
 
@@ -73,9 +105,10 @@ VARIABLES
     done,    \* DoneChan closed
     cnt, first,  \* GetBlock: blocks received in this call, the first of them
     res,     \* results of the returned calls
-    deliv,   \* per call: blocks handed to BlockFunc
-    bd       \* per call: BatchDoneFunc invocations
-vars == <<c, n, cpc, busy, owner, wire, srv, hd, conn, recv, done, cnt, first, res, deliv, bd>>
+    deliv,   \* per call: blocks handed to the block callback (BlockFunc / BlockRawFunc)
+    bd,      \* per call: BatchDoneFunc invocations
+    comp     \* per call: BatchDone messages handled (configuration-independent)
+vars == <<c, n, cpc, busy, owner, wire, srv, hd, conn, recv, done, cnt, first, res, deliv, bd, comp>>
 
 Calls == CallsOf(c)
 NCalls == Len(Calls)
@@ -91,7 +124,7 @@ Init ==
     /\ n = 1 /\ cpc = "idle" /\ busy = 0 /\ owner = 0
     /\ wire = <<>> /\ srv = 0 /\ hd = None /\ conn = "open" /\ recv = TRUE /\ done = FALSE
     /\ cnt = 0 /\ first = 0 /\ res = <<>>
-    /\ deliv = [i \in 1..2 |-> <<>>] /\ bd = [i \in 1..2 |-> 0]
+    /\ deliv = [i \in 1..2 |-> <<>>] /\ bd = [i \in 1..2 |-> 0] /\ comp = [i \in 1..2 |-> 0]
 
 \* the caller leaves its call with result r; release = releaseBusy(token)
 Return(r, release) ==
@@ -106,7 +139,7 @@ Return(r, release) ==
 Acquire ==                                   \* acquireBusy(): blocks while the lock is held
     /\ cpc = "idle" /\ n <= NCalls /\ busy = 0
     /\ busy' = n /\ owner' = n /\ cpc' = "send" /\ cnt' = 0 /\ first' = 0
-    /\ UNCHANGED <<c, n, wire, srv, hd, conn, recv, done, res, deliv, bd>>
+    /\ UNCHANGED <<c, n, wire, srv, hd, conn, recv, done, res, deliv, bd, comp>>
 
 Send ==                                      \* SendMessage(RequestRange)
     /\ cpc = "send"
@@ -117,17 +150,17 @@ Send ==                                      \* SendMessage(RequestRange)
                THEN wire' = wire \o ScriptOf(Cur) /\ srv' = srv + 1
                ELSE UNCHANGED <<wire, srv>>
             /\ UNCHANGED <<n, busy, res>>
-    /\ UNCHANGED <<c, owner, hd, conn, recv, done, cnt, first, deliv, bd>>
+    /\ UNCHANGED <<c, owner, hd, conn, recv, done, cnt, first, deliv, bd, comp>>
 
 CallerSeesDone ==                            \* every wait also selects on DoneChan
     /\ done /\ cpc \in {"waitStart", "collect", "waitBlock", "waitDone"}
     /\ Return(Err, TRUE)
-    /\ UNCHANGED <<c, owner, wire, srv, hd, conn, recv, done, cnt, first, deliv, bd>>
+    /\ UNCHANGED <<c, owner, wire, srv, hd, conn, recv, done, cnt, first, deliv, bd, comp>>
 
 Watcher ==                                   \* releaseBusyOnProtocolDone of a started range
     /\ done /\ busy # 0 /\ busy < n /\ Calls[busy].mode = "range"
     /\ busy' = 0
-    /\ UNCHANGED <<c, n, cpc, owner, wire, srv, hd, conn, recv, done, cnt, first, res, deliv, bd>>
+    /\ UNCHANGED <<c, n, cpc, owner, wire, srv, hd, conn, recv, done, cnt, first, res, deliv, bd, comp>>
 
 --------------------------------------------------------------------------
 (* recvLoop and the handlers *)
@@ -135,7 +168,7 @@ Watcher ==                                   \* releaseBusyOnProtocolDone of a s
 Take ==
     /\ recv /\ hd = None /\ wire # <<>>
     /\ hd' = Head(wire) /\ wire' = Tail(wire)
-    /\ UNCHANGED <<c, n, cpc, busy, owner, srv, conn, recv, done, cnt, first, res, deliv, bd>>
+    /\ UNCHANGED <<c, n, cpc, busy, owner, srv, conn, recv, done, cnt, first, res, deliv, bd, comp>>
 
 HStartBatch ==                               \* startBatchResultChan <- nil
     /\ hd.t = "SB" /\ cpc = "waitStart"
@@ -144,19 +177,20 @@ HStartBatch ==                               \* startBatchResultChan <- nil
        THEN /\ cpc' = (IF Collect THEN "collect" ELSE "waitBlock")
             /\ UNCHANGED <<n, busy, res>>
        ELSE Return(Nil, FALSE)               \* GetBlockRange returns, the batch goes on
-    /\ UNCHANGED <<c, owner, wire, srv, conn, recv, done, cnt, first, deliv, bd>>
+    /\ UNCHANGED <<c, owner, wire, srv, conn, recv, done, cnt, first, deliv, bd, comp>>
 
 HNoBlocks ==                                 \* startBatchResultChan <- "block(s) not found"
     /\ hd.t = "NB" /\ cpc = "waitStart"
     /\ hd' = None
     /\ Return(Err, TRUE)
-    /\ UNCHANGED <<c, owner, wire, srv, conn, recv, done, cnt, first, deliv, bd>>
+    /\ UNCHANGED <<c, owner, wire, srv, conn, recv, done, cnt, first, deliv, bd, comp>>
 
-HBlockCallback ==                            \* range mode: BlockFunc(block)
+HBlockCallback ==                            \* range mode: BlockRawFunc / BlockFunc (block)
     /\ hd.t = "B" /\ Own.mode = "range"
+    /\ HasBlockCb(c.cfg)                      \* (cases without one never get here, see CaseSpace)
     /\ deliv' = [deliv EXCEPT ![owner] = Append(@, hd.b)]
     /\ hd' = None
-    /\ UNCHANGED <<c, n, cpc, busy, owner, wire, srv, conn, recv, done, cnt, first, res, bd>>
+    /\ UNCHANGED <<c, n, cpc, busy, owner, wire, srv, conn, recv, done, cnt, first, res, bd, comp>>
 
 HBlockChan ==                                \* GetBlock mode: blockChan <- block
     /\ hd.t = "B" /\ Own.mode = "block"
@@ -165,11 +199,12 @@ HBlockChan ==                                \* GetBlock mode: blockChan <- bloc
     /\ first' = IF cnt = 0 THEN hd.b ELSE first
     /\ cpc' = IF Collect THEN cpc ELSE "waitDone"
     /\ hd' = None
-    /\ UNCHANGED <<c, n, busy, owner, wire, srv, conn, recv, done, res, deliv, bd>>
+    /\ UNCHANGED <<c, n, busy, owner, wire, srv, conn, recv, done, res, deliv, bd, comp>>
 
-HBatchDoneCallback ==                        \* range mode: BatchDoneFunc, releaseCurrentBusy
+HBatchDoneCallback ==                        \* range mode: BatchDoneFunc if there is one; releaseCurrentBusy anyway
     /\ hd.t = "BD" /\ Own.mode = "range"
-    /\ bd' = [bd EXCEPT ![owner] = @ + 1]
+    /\ bd' = IF HasBDF(c.cfg) THEN [bd EXCEPT ![owner] = @ + 1] ELSE bd
+    /\ comp' = [comp EXCEPT ![owner] = @ + 1]
     /\ busy' = 0
     /\ hd' = None
     /\ UNCHANGED <<c, n, cpc, owner, wire, srv, conn, recv, done, cnt, first, res, deliv>>
@@ -182,6 +217,7 @@ HBatchDoneChan ==                            \* GetBlock mode: batchDoneChan <- 
     /\ cpc = (IF Collect THEN "collect" ELSE "waitDone")
     /\ hd' = None
     /\ Return(BlockResult, TRUE)
+    /\ comp' = [comp EXCEPT ![owner] = @ + 1]
     /\ UNCHANGED <<c, owner, wire, srv, conn, recv, done, cnt, first, deliv, bd>>
 
 --------------------------------------------------------------------------
@@ -190,12 +226,12 @@ HBatchDoneChan ==                            \* GetBlock mode: batchDoneChan <- 
 Close ==                                     \* after the (only) script has been written
     /\ c.close /\ conn = "open" /\ srv >= 1
     /\ conn' = "closed"
-    /\ UNCHANGED <<c, n, cpc, busy, owner, wire, srv, hd, recv, done, cnt, first, res, deliv, bd>>
+    /\ UNCHANGED <<c, n, cpc, busy, owner, wire, srv, hd, recv, done, cnt, first, res, deliv, bd, comp>>
 
 RecvExit ==                                  \* only between two messages; then DoneChan closes
     /\ conn = "closed" /\ recv /\ hd = None
     /\ recv' = FALSE /\ done' = TRUE /\ wire' = <<>>
-    /\ UNCHANGED <<c, n, cpc, busy, owner, srv, hd, conn, cnt, first, res, deliv, bd>>
+    /\ UNCHANGED <<c, n, cpc, busy, owner, srv, hd, conn, cnt, first, res, deliv, bd, comp>>
 
 Next ==
     \/ Acquire \/ Send \/ CallerSeesDone \/ Watcher
@@ -217,6 +253,7 @@ IsPrefixOf(s, t) == Len(s) <= Len(t) /\ \A i \in 1..Len(s) : s[i] = t[i]
 
 TypeOK ==
     /\ n \in 1..3 /\ busy \in 0..2 /\ owner \in 0..2 /\ cnt \in 0..MaxBlocks
+    /\ \A k \in 1..2 : comp[k] \in 0..1 /\ bd[k] \in 0..1
     /\ cpc \in {"idle", "send", "waitStart", "collect", "waitBlock", "waitDone"}
     /\ Len(res) = n - 1
 
@@ -240,8 +277,8 @@ RangeOrder ==
     \A k \in 1..2 :
         IF k <= NCalls /\ Calls[k].mode = "range"
         THEN /\ IsPrefixOf(deliv[k], Calls[k].shape.blocks)
-             /\ bd[k] <= 1
-             /\ (bd[k] = 1 => deliv[k] = Calls[k].shape.blocks)
+             /\ comp[k] <= 1 /\ bd[k] <= comp[k]
+             /\ (comp[k] = 1 => deliv[k] = Calls[k].shape.blocks)
         ELSE deliv[k] = <<>> /\ bd[k] = 0
 
 RangeReturn ==
@@ -256,19 +293,34 @@ BusyLock ==
     /\ (busy # 0 => busy = owner)
     /\ (cpc # "idle" => busy = n)
     /\ (busy # 0 /\ busy < n =>
-            /\ Calls[busy].mode = "range" /\ res[busy].ret = "nil" /\ bd[busy] = 0)
+            /\ Calls[busy].mode = "range" /\ res[busy].ret = "nil" /\ comp[busy] = 0)
+
+\* the configuration dimension: the callbacks receive, they do not steer.
+\* BatchDoneFunc is invoked exactly for the completed range batches of a client that has one ...
+BatchDoneFuncIffConfigured ==
+    \A k \in 1..2 :
+        bd[k] = IF k <= NCalls /\ Calls[k].mode = "range" /\ HasBDF(c.cfg) THEN comp[k] ELSE 0
+\* ... and the busy lock of call k is given back once its BatchDone has been handled, whatever is configured
+ReleasedAtBatchDone ==
+    \A k \in 1..2 : comp[k] = 1 => busy # k
+\* a range request that is served blocks runs on a client with a block callback (shape of the case space)
+BlockCallbackPresent ==
+    \A k \in 1..2 : deliv[k] # <<>> => HasBlockCb(c.cfg)
 
 \* liveness: every call returns and the conversation winds down with the lock free
 Termination == <>Terminal
 RangeCompletes ==
-    <>(~c.close => \A k \in 1..NCalls : (Calls[k].mode = "range" /\ ~Calls[k].shape.nob) => bd[k] = 1)
+    <>(~c.close => \A k \in 1..NCalls : (Calls[k].mode = "range" /\ ~Calls[k].shape.nob) => comp[k] = 1)
+\* a request issued after a completed (or refused) batch is eventually sent: the lock came back
+EveryRequestSent == <>(~c.close => srv = NCalls)
 
 --------------------------------------------------------------------------
 (* emission: every case once, and the outcome of every terminal state *)
 
 ShapeName(sh) == IF sh.nob THEN <<"NB">> ELSE <<"SB">> \o [i \in 1..Len(sh.blocks) |-> sh.blocks[i]] \o <<"BD">>
 CaseRow(x) == [mode |-> x.mode, p |-> x.p, nob |-> x.shape.nob, blocks |-> x.shape.blocks,
-               close |-> x.close, follow |-> x.follow, fp |-> Other(x.p)]
+               close |-> x.close, follow |-> x.follow, fp |-> Other(x.p),
+               cfg |-> x.cfg, bf |-> HasBF(x.cfg), raw |-> HasRaw(x.cfg), bdf |-> HasBDF(x.cfg)]
 
 ASSUME Emit => ndJsonSerialize("cases.ndjson", SetToSeq({CaseRow(x) : x \in CaseSpace}))
 
